@@ -970,7 +970,7 @@ where
             match message[0] as char {
                 // Query
                 'Q' => {
-                    if query_router.query_parser_enabled() {
+                    if query_router.parses_messages() {
                         match query_router.parse(&message) {
                             Ok(ast) => {
                                 let plugin_result = query_router.execute_plugins(&ast).await;
@@ -1012,7 +1012,7 @@ where
                 // to when we get the S message
                 // Parse
                 'P' => {
-                    if query_router.query_parser_enabled() {
+                    if query_router.parses_messages() {
                         match query_router.parse(&message) {
                             Ok(ast) => {
                                 if let Ok(output) = query_router.execute_plugins(&ast).await {
@@ -1279,7 +1279,7 @@ where
                 match code {
                     // Query
                     'Q' => {
-                        if query_router.query_parser_enabled() {
+                        if query_router.parses_messages() {
                             // We don't want to parse again if we already parsed it as the initial message
                             let ast = match initial_parsed_ast {
                                 Some(_) => Some(initial_parsed_ast.take().unwrap()),
@@ -1355,7 +1355,7 @@ where
                     // Parse
                     // The query with placeholders is here, e.g. `SELECT * FROM users WHERE email = $1 AND active = $2`.
                     'P' => {
-                        if query_router.query_parser_enabled() {
+                        if query_router.parses_messages() {
                             if let Ok(ast) = query_router.parse(&message) {
                                 if let Ok(output) = query_router.execute_plugins(&ast).await {
                                     self.note_rejected_parse(&output, &message);
